@@ -430,6 +430,16 @@ func runScenario(c *common.Ctx, idx int) error {
 }
 
 func Run(c *common.Ctx) error {
+	for i := 0; i < c.Pick(6, 12); i++ {
+		if err := forkRejoin(c, i); err != nil {
+			return err
+		}
+	}
+	for i := 0; i < c.Pick(1, 3); i++ {
+		if err := multiDB(c, i); err != nil {
+			return err
+		}
+	}
 	n := c.Pick(6, 60)
 	for i := 0; i < n; i++ {
 		if err := runScenario(c, i); err != nil {
